@@ -95,10 +95,17 @@ def embed(callt, ctxname):
     return T.call("my.wrap", T.ident("first"), callt)
 
 
-def judge(ctx, name, args, ctxname, cls):
+def judge(ctx, name, args, ctxname, cls, trailing_comma=False):
     callt = ("call", name, tuple(args))
     t = embed(callt, ctxname)
     text = to_text(t)
+    if trailing_comma:
+        # the other spelling of a one-argument call: name(arg,)
+        ct = to_text(callt)
+        if len(args) != 1 or text.count(ct) != 1:
+            return True
+        text = text.replace(ct, ct[:-1] + ",)")
+        cls = cls + ":trailing-comma"
     ctx.count("evaluations")
     ctx.seen(text)
     ctx.cls(cls)
@@ -163,6 +170,12 @@ def run(ctx):
                     continue
                 args = [arg_of_kind((idx + j) % N_KINDS, j + 1) for j in range(n)]
                 ok = judge(ctx, name, args, ctxname, "%s:n%d" % (kindname, n))
+                if n == 1:
+                    judge(ctx, name, args, ctxname, "%s:n%d" % (kindname, n), trailing_comma=True)
+                    # ... also with each kind of argument, lists included
+                    for kind in range(N_KINDS):
+                        judge(ctx, name, [arg_of_kind(kind, idx % 50)], ctxname,
+                              "%s:n1-kind%d" % (kindname, kind), trailing_comma=True)
                 if idx % 977 == 0:
                     ctx.sample({"name": name, "nargs": n, "context": ctxname,
                                 "expected": expected_call(name, n), "ok": ok})
@@ -176,6 +189,10 @@ def run(ctx):
                     continue
                 args = [arg_of_kind((variant + j) % N_KINDS, j + 1) for j in range(n)]
                 judge(ctx, name, args, CONTEXTS[idx % 4], "custom:pos%d" % n)
+                if n == 1:
+                    for kind in range(N_KINDS):
+                        judge(ctx, name, [arg_of_kind(kind, idx % 50)], CONTEXTS[idx % 4],
+                              "custom:pos1-kind%d" % kind, trailing_comma=True)
                 if n >= 1:
                     nargs = [("np", T.ident("k%d" % (j + 1)), a) for j, a in enumerate(args)]
                     judge(ctx, name, nargs, CONTEXTS[idx % 4], "custom:named%d" % n)
